@@ -416,6 +416,67 @@ def rule_guess(repo, tier):
     return res
 
 
+def rule_budget(repo, tier):
+    """CG's default iteration budget is 10 n with n the ORDER OF THE SYSTEM: the row count of the (n, k) right-hand side or a side of A.  The last axis
+    of b is the number of right-hand sides (1 after the vector normalisation), so 10 * b.shape[-1] is a budget of 10 for every system."""
+    res = RuleResult('C10.BUDGET', 'CG: the default maxiter is derived from the order of the system (A.shape[-1] / A.shape[-2] / b.shape[-2]), never from the '
+                     'number of right-hand sides b.shape[-1]', floor=1)
+    f = repo.func(SOLVER, 'CG.forward')
+    pp_ = f.pos_params
+    aname, bname = pp_[1], pp_[2]
+    defs = {}
+    for n in ast.walk(f.node):
+        if isinstance(n, ast.Assign) and len(n.targets) == 1 and isinstance(n.targets[0], ast.Name):
+            defs.setdefault(n.targets[0].id, []).append(n.value)
+    cnt = 0
+    # the budget variable is whatever bounds the iteration loop: `for it in range(<name>)`; the configured budget is the constructor attribute read there
+    bvars = {n.iter.args[0].id for n in ast.walk(f.node) if isinstance(n, ast.For) and isinstance(n.iter, ast.Call) and dotted(n.iter.func) == 'range'
+             and len(n.iter.args) == 1 and isinstance(n.iter.args[0], ast.Name)}
+    if not bvars:
+        raise AnalysisError('C10.BUDGET: CG.forward has no `for ... in range(<budget>)` loop any more')
+    for n in ast.walk(f.node):
+        if not (isinstance(n, ast.Assign) and any(isinstance(t, ast.Name) and t.id in bvars for t in n.targets)):
+            continue
+        if isinstance(n.value, ast.Attribute) and (dotted(n.value) or '').startswith('self.'):
+            continue                                     # the configured budget, not the default
+        cnt += 1
+        extents = []
+        stack = [n.value]
+        seen = set()
+        while stack:
+            e = stack.pop()
+            for x in ast.walk(e):
+                if isinstance(x, ast.Name) and x.id not in seen and len(defs.get(x.id, [])) == 1:
+                    seen.add(x.id)
+                    stack.append(defs[x.id][0])
+                if isinstance(x, ast.Subscript) and isinstance(x.value, ast.Attribute) and x.value.attr == 'shape':
+                    try:
+                        k = ast.literal_eval(x.slice)
+                    except ValueError:
+                        k = None
+                    extents.append((dotted(x.value.value), k, x))
+                if isinstance(x, ast.Call) and isinstance(x.func, ast.Attribute) and x.func.attr == 'size' and x.args:
+                    try:
+                        k = ast.literal_eval(x.args[0])
+                    except ValueError:
+                        k = None
+                    extents.append((dotted(x.func.value), k, x))
+        good = [e for e in extents if (e[0] == aname and e[1] in (-1, -2)) or (e[0] == bname and e[1] == -2)]
+        bad = [e for e in extents if e not in good]
+        ok = bool(good) and not bad
+        res.inst({'function': f.fq, 'budget': src(n)[:50], 'extents': [src(e[2]) for e in extents], 'order of the system': ok}, src(n))
+        if bad:
+            res.add(Finding('C10.BUDGET', f, 'the default iteration budget `%s` is taken from `%s`: for the right-hand side the order of the system is '
+                            'its second-to-last axis; the last axis counts right-hand sides (1), so every system gets the same few iterations'
+                            % (src(n)[:50], src(bad[0][2])), node=n))
+        elif not good:
+            res.add(Finding('C10.BUDGET', f, 'the default iteration budget `%s` does not depend on the order of the system: conjugate gradients needs up to n '
+                            'steps for an n x n system, so larger systems are returned unconverged' % src(n)[:50], node=n))
+    if cnt == 0:
+        raise AnalysisError('C10.BUDGET: the default maxiter of CG.forward was not found')
+    return res
+
+
 def rule_conf(repo, tier):
     """history independence of the solver modules: an attribute configured by the constructor is never rebound in forward() from data of the
     current call (sizes, tensors) - the next call, on another system, would inherit it (e.g. an iteration budget frozen at the first system's 10n)"""
@@ -475,7 +536,7 @@ def _rules_core(repo, tier):
     from ..effects import rule_pure
     from ..outalias import rule_outalias
     return [rule_status(repo, tier), rule_lstsq(repo, tier), rule_zero(repo, tier), rule_stale(repo, 'C10.STALE', [(SOLVER, 'CG.forward')]),
-            rule_idx(repo, tier), rule_dispatch(repo, tier), rule_tri(repo, tier), rule_conf(repo, tier), guarded(rule_guess)(repo, tier),
+            rule_idx(repo, tier), rule_dispatch(repo, tier), rule_tri(repo, tier), rule_conf(repo, tier), guarded(rule_guess)(repo, tier), guarded(rule_budget)(repo, tier),
             rule_outalias(repo, 'C10.OUT', [(SOLVER, 'CG.forward')]),
             rule_pure(repo, 'C10.PURE', 'no solver writes into the matrix, right-hand side, initial guess or preconditioner it is given: a caller that '
                       'solves again with the same tensors (damping retries, warm starts) solves the same system',
